@@ -254,8 +254,13 @@ Definition shortest_digits_ok (x : f64) : bool :=
 (* 3. strconv.FormatFloat                                                               *)
 (* ------------------------------------------------------------------------------------ *)
 
+(* 2 <= base <= 36 *)
+Definition format_int (z base : Z) : string :=
+  if z <? 0 then String "-" (int_digits (S (Z.to_nat (Z.log2 (- z)))) (- z) base EmptyString)
+  else int_digits (S (Z.to_nat (Z.log2 z))) z base EmptyString.
+
 Definition exp_digits (a : Z) : string :=
-  if a <? 10 then String "0" (string_of_Z a) else string_of_Z a.
+  if a <? 10 then String "0" (format_int a 10) else format_int a 10.
 
 (* %e: -d.ddddde±dd *)
 Definition fmtE (neg : bool) (ds : string) (dp prec : Z) : string :=
@@ -380,11 +385,6 @@ Definition format_json_number (x : f64) : string :=
 (* ------------------------------------------------------------------------------------ *)
 (* 5. strconv.FormatInt / strconv.Atoi                                                   *)
 (* ------------------------------------------------------------------------------------ *)
-
-(* 2 <= base <= 36 *)
-Definition format_int (z base : Z) : string :=
-  if z <? 0 then String "-" (int_digits (S (Z.to_nat (Z.log2 (- z)))) (- z) base EmptyString)
-  else int_digits (S (Z.to_nat (Z.log2 z))) z base EmptyString.
 
 Definition atoi (s : string) : option Z :=
   let '(neg, r) := read_sign s in
